@@ -44,7 +44,9 @@ def _add():
 def _ops(depth=0):
     base = [(6, _add()), (1, st.tuples(st.just("dup"), st.integers(0, 5)).map(list)),
             # a register added to a second, independent builder at this point (possibly inside scopes of the first)
-            (1, st.tuples(st.just("other"), st.sampled_from([0, 0, 1])).map(list))]
+            (1, st.tuples(st.just("other"), st.sampled_from([0, 0, 1])).map(list)),
+            # the same register name inside Cluster("k") and inside Index(k): different scopes ('3' is not 3)
+            (1, st.tuples(st.just("twin_scopes"), st.sampled_from(NAMES), st.sampled_from([0, 1, 2, 7, 300])).map(list))]
     if depth < 3:
         sub = st.deferred(lambda: _ops(depth + 1))
         base += [(2, st.tuples(st.just("cluster"), st.sampled_from(NAMES + NAMES + ["0", "1", "2", "0", "1", "", 3]), sub,
@@ -203,6 +205,16 @@ def check(spec, stats):
                         raise
                 if bad and entered:
                     raise Violation("C17/bad-scope-accepted", f"{k}({arg!r}) accepted")
+            elif k == "twin_scopes":
+                if frozen[0]:
+                    continue
+                for cm, arg in ((b.Cluster, str(op[2])), (b.Index, op[2])):
+                    reg = csr.Register(csr.Field(action.RW, dw), access="rw")
+                    with cm(fresh(arg)):
+                        b.add(fresh(op[1]), reg)
+                    model.append((reg, tuple(stack) + (arg, op[1]), dw, None))
+                    regs.append(reg)
+                stats.label("str_and_int_scope_of_the_same_spelling")
             elif k == "other":
                 reg = csr.Register(csr.Field(action.RW, 8), access="rw")
                 nm = f"o{len(other_model)}"
